@@ -285,37 +285,7 @@ func runC18(res *Result, tier string, seed int64, replay string) {
 		r := NewRng(seed, fmt.Sprintf("c18/m/%d", i))
 		texts = append(texts, mutateBytes(r, texts[r.Intn(len(texts))]))
 	}
-	type pass struct {
-		proto string
-		real  func(string) string
-	}
-	passes := []pass{
-		{"strip", parser.VerifStripNonMSOComments},
-		{"amp", parser.VerifEscapeAttributeAmpersands},
-		{"ent", parser.VerifPreprocessHTMLEntities},
-		{"cdesc", func(s string) string { return strings.ReplaceAll(s, "]]>", "]]]]><![CDATA[>") }},
-	}
-	parallel(8, len(texts), func(i int) {
-		t := texts[i]
-		if len(t) > 20000 {
-			return
-		}
-		for _, p := range passes {
-			want := hex.EncodeToString([]byte(p.real(t)))
-			got, err := drv.Ask(p.proto + " " + hex.EncodeToString([]byte(t)))
-			res.mu.Lock()
-			res.Programs++
-			res.DisagreementsChecked++
-			res.mu.Unlock()
-			if err != nil || got != want {
-				gb, _ := hex.DecodeString(got)
-				wb, _ := hex.DecodeString(want)
-				at := firstDiff(string(gb), string(wb))
-				res.Disagree(Violation{Sig: "prepass-model-mismatch|" + p.proto, Kind: "input", What: fmt.Sprintf("pass %s: implementation and Lean model differ at byte %d: …%q… vs model …%q…", p.proto, at, around(string(wb), at), around(string(gb), at)),
-					Input: map[string]string{"text": t}})
-			}
-		}
-	})
+	prepassCorrespondence(res, drv, texts)
 	_ = mjml.Render
 }
 
